@@ -199,6 +199,7 @@ class Reference:
             self.fqn,
             self.multiplicity,
             self.separator.name if self.separator else None,
+            self.greedy,
         )
 
     @property
@@ -969,7 +970,10 @@ class Grammar(PGFile):
                 productions = []
                 symbol_one = symbol
                 symbol_name = make_multiplicity_fqn(
-                    symbol_ref.fqn, mult, separator.name if separator else None
+                    symbol_ref.fqn,
+                    mult,
+                    separator.name if separator else None,
+                    symbol_ref.greedy,
                 )
                 symbol = NonTerminal(
                     symbol_name,
@@ -1030,7 +1034,9 @@ class Grammar(PGFile):
                     f'optional (?) for symbol "{symbol_ref.name}".',
                 )
             productions = []
-            symbol_name = make_multiplicity_fqn(symbol_ref.fqn, mult)
+            symbol_name = make_multiplicity_fqn(
+                symbol_ref.fqn, mult, greedy=symbol_ref.greedy
+            )
             symbol = NonTerminal(
                 symbol_name,
                 productions,
@@ -1401,7 +1407,9 @@ def create_productions_terminals(productions):
     return gp, list(inline_terminals.values())
 
 
-def make_multiplicity_fqn(symbol_name, multiplicity=None, separator_name=None):
+def make_multiplicity_fqn(
+    symbol_name, multiplicity=None, separator_name=None, greedy=False
+):
     if multiplicity is None or multiplicity == MULT_ONE:
         return symbol_name
     name_by_mult = {
@@ -1410,10 +1418,11 @@ def make_multiplicity_fqn(symbol_name, multiplicity=None, separator_name=None):
         MULT_OPTIONAL: "opt",
     }
     if multiplicity:
-        return "{}_{}{}".format(
+        return "{}_{}{}{}".format(
             symbol_name,
             name_by_mult[multiplicity],
             f"_{separator_name}" if separator_name else "",
+            "_g" if greedy else "",
         )
 
 
